@@ -56,6 +56,7 @@ static bool G_TGRID = false;   // point targets = nodes of a rotated DbGrid (set
 static bool G_V2ZERO = false;  // measurement error variance of the second variable = 0 everywhere (exactness of the error-free variable)
 static bool G_PERCELL = false; // block support defined per target cell (locator BLEX), kriging through krigcell / flagPerCell
 static const double BLEXT[2][3] = {{0.9, 0.7, 0.5}, {0.5, 1.1, 0.3}};   // extensions of the two target cells
+static int  G_NEXTRA = 0;       // extra fully defined samples around the cluster + angular sectors with a binding nmaxi (exactness runs)
 static bool G_TCOIN = false;   // second point target placed exactly on the first sample (set per case)
 struct Setup
 {
@@ -112,7 +113,7 @@ static void build(Setup& S, const Value& cfg, const std::vector<int>& perm, cons
   int nd = S.ndim;
   defineDefaultSpace(ESpaceType::RN, nd);
   S.nfar = S.neighKind == "moving" ? 2 : 0;
-  int nech = S.ns + S.nfar;
+  int nech = S.ns + S.nfar + G_NEXTRA;
   std::vector<VectorDouble> x(nd, VectorDouble(nech));
   VectorDouble f(nech);
   std::vector<VectorDouble> z(S.nvar, VectorDouble(nech)), v(S.nvar, VectorDouble(nech));
@@ -124,10 +125,19 @@ static void build(Setup& S, const Value& cfg, const std::vector<int>& perm, cons
   for (int k = 0; k < S.ns; k++) { slot[pos] = perm[k]; S.order[perm[k]] = pos; pos++; }
   if (S.nfar > 1) slot[pos++] = -1;
   int ifar = 0;
+  unsigned long long rst = 1234567891011ULL;
+  auto rnd = [&rst]() { rst ^= rst << 13; rst ^= rst >> 7; rst ^= rst << 17; return (double)(rst % 1000003ULL) / 1000003.0; };
   for (int r = 0; r < nech; r++)
   {
     int s = slot[r];
-    if (s < 0)
+    if (r >= S.ns + S.nfar)
+    {
+      // extra samples: everywhere defined, spread over the area of the cluster
+      for (int d = 0; d < nd; d++) x[d][r] = 3.2 * rnd() - 0.1 + S.shift[d];
+      for (int iv = 0; iv < S.nvar; iv++) { z[iv][r] = 2. * rnd() - 1.; v[iv][r] = (G_V2ZERO && iv == 1) ? 0. : 0.15; }
+      f[r] = 0.5 + 2. * rnd();
+    }
+    else if (s < 0)
     {
       for (int d = 0; d < nd; d++) x[d][r] = FARC[ifar][d] + S.shift[d];
       ifar++;
@@ -215,7 +225,10 @@ static void build(Setup& S, const Value& cfg, const std::vector<int>& perm, cons
   if (S.neighKind == "moving")
   {
     SpaceRN space(nd);
-    S.neigh = NeighMoving::create(false, 100, 12., 1, 1, 0, VectorDouble(), VectorDouble(), &space);
+    if (G_NEXTRA > 0 && nd >= 2)
+      S.neigh = NeighMoving::create(false, 6, 12., 1, 4, ITEST, VectorDouble(), VectorDouble(), &space);   // 4 sectors, nmaxi binds
+    else
+      S.neigh = NeighMoving::create(false, 100, 12., 1, 1, 0, VectorDouble(), VectorDouble(), &space);
   }
   else
   {
@@ -713,7 +726,7 @@ int main(int argc, char** argv)
     }
     else if (mode == "meta") { G_TGRID = run.getb("tgrid", false); rec["obs"] = meta(cs, nk, im); G_TGRID = false; }
     else if (mode == "cluster") rec["obs"] = clusterCase(cs, im);
-    else if (mode == "exact") { G_V2ZERO = run.getb("v2zero", false); rec["obs"] = exact(cs, nk, im); G_V2ZERO = false; }
+    else if (mode == "exact") { G_V2ZERO = run.getb("v2zero", false); G_NEXTRA = run.getb("sectors", false) ? 14 : 0; rec["obs"] = exact(cs, nk, im); G_V2ZERO = false; G_NEXTRA = 0; }
     fprintf(fo, "%s\n", vj::dump(rec).c_str());
   }
   fclose(fo);
